@@ -14,18 +14,22 @@ func (*inRange) Exit(node *Node) {
 			if rng, ok := n.Right.(*BinaryNode); ok && rng.Operator == ".." {
 				if from, ok := rng.Left.(*IntegerNode); ok {
 					if to, ok := rng.Right.(*IntegerNode); ok {
+						ge := &BinaryNode{
+							Operator: ">=",
+							Left:     n.Left,
+							Right:    from,
+						}
+						ge.SetLocation(n.Location())
+						le := &BinaryNode{
+							Operator: "<=",
+							Left:     n.Left,
+							Right:    to,
+						}
+						le.SetLocation(n.Location())
 						Patch(node, &BinaryNode{
 							Operator: "and",
-							Left: &BinaryNode{
-								Operator: ">=",
-								Left:     n.Left,
-								Right:    from,
-							},
-							Right: &BinaryNode{
-								Operator: "<=",
-								Left:     n.Left,
-								Right:    to,
-							},
+							Left:     ge,
+							Right:    le,
 						})
 						if n.Operator == "not in" {
 							Patch(node, &UnaryNode{
